@@ -211,6 +211,37 @@ def ins_specs():
                          lambda: m.derive_strapdown_ins_propagation()["strapdown_ins_propagate"])]
 
 
+def ctrl_specs():
+    """rdd2 / rdd2_loglinear controller functions (C15)"""
+    import cyecca.models.rdd2 as m
+    import cyecca.models.rdd2_loglinear as ml
+    S = []
+    S.append(lazy_fn_spec("rdd2.attitude_rate_control", lambda: m.derive_attitude_rate_control()["attitude_rate_control"]))
+    S.append(lazy_fn_spec("rdd2.attitude_control", lambda: m.derive_attitude_control()["attitude_control"]))
+    S.append(lazy_fn_spec("rdd2.input_acro", lambda: m.derive_input_acro()["input_acro"]))
+    S.append(lazy_fn_spec("rdd2.input_velocity", lambda: m.derive_input_velocity()["input_velocity"]))
+    S.append(lazy_fn_spec("rdd2.input_auto_level", lambda: m.derive_input_auto_level()["input_auto_level"]))
+    S.append(lazy_fn_spec("loglinear.so3_attitude_control", lambda: ml.derive_so3_attitude_control()["so3_attitude_control"]))
+    S.append(lazy_fn_spec("loglinear.se23_error", lambda: ml.derive_se23_error()["se23_error"]))
+    S.append(lazy_fn_spec("loglinear.se23_attitude_control", lambda: ml.derive_outerloop_control()["se23_attitude_control"]))
+    return S
+
+
+def ref_specs():
+    """attitude set-point producers (C14)"""
+    import cyecca.models.rdd2 as m
+    import cyecca.models.rdd2_loglinear as ml
+    import cyecca.models.bezier as bz
+    import cyecca.models.mr_ref_traj as mr
+    S = []
+    S.append(lazy_fn_spec("rdd2.position_control", lambda: m.derive_position_control()["position_control"], scalar=False))
+    S.append(lazy_fn_spec("loglinear.se23_position_control", lambda: ml.derive_outerloop_control()["se23_position_control"], scalar=False))
+    S.append(lazy_fn_spec("bezier.f_ref", lambda: bz.derive_ref()["f_ref"], scalar=False))
+    S.append(lazy_fn_spec("mr_ref_traj.mr_ref_traj", lambda: mr.derive_mr_ref_traj()["mr_ref_traj"], scalar=False))
+    S.append(lazy_fn_spec("bezier.eulerB321_to_quat", lambda: bz.derive_eulerB321_to_quat()["eulerB321_to_quat"]))
+    return S
+
+
 MODULES = {
     "Series": (series_specs, ()),
     "SO2": (so2_specs, ("Series",)),
@@ -224,4 +255,6 @@ MODULES = {
     "Bezier": (bezier_specs, ("Series",)),
     "Quad": (quad_specs, ("Series",)),
     "Ins": (ins_specs, ("Series",)),
+    "Ctrl": (ctrl_specs, ("Series",)),
+    "Ref": (ref_specs, ("Series",)),
 }
